@@ -93,6 +93,7 @@ def cp_const_value(p: Dict) -> Fraction:
 
 
 _CP_ONE = {_ONE_MONO: Fraction(1)}
+TINY = Fraction(1, 10**20)
 
 
 def _num(o) -> Optional[Fraction]:
@@ -264,9 +265,7 @@ class Sym:
     def __abs__(self):
         if self.is_const():
             return Sym(cp_const(abs(self.const_value())))
-        if ENGINE.decide(self.z3() >= 0, tainted=self.tainted):
-            return self
-        return -self
+        return SymAbs(self)
 
     def conjugate(self):
         return self
@@ -303,6 +302,15 @@ class Sym:
         b = Sym.lift(o)
         if b is None:
             return NotImplemented
+        if b.is_const() and 0 < abs(b.const_value()) < TINY and not self.is_const():
+            # assumption A-tiny: no symbolic value lies strictly between 0 and +-1e-20 (so a comparison with
+            # a tiny cut-off constant is a comparison with 0); recorded in the evidence when used
+            ENGINE.assumptions_used.add("A-tiny: symbolic values are 0 or at least 1e-20 in magnitude")
+            pos = b.const_value() > 0
+            op = {"lt": "le" if pos else "lt", "le": "le" if pos else "lt", "gt": "gt" if pos else "ge", "ge": "gt" if pos else "ge", "eq": "eq", "ne": "ne"}[op]
+            if op in ("eq", "ne"):
+                return numpy.bool_(op == "ne")
+            b = Sym(cp_const(0))
         d = self - b
         if d.is_const():
             v = d.const_value()
@@ -454,6 +462,86 @@ class Sym:
 
     def __len__(self):
         raise TypeError("len() of unsized object")
+
+
+class SymAbs(Sym):
+    """|x| of a symbolic x, kept lazy: a comparison with a constant is decided as ONE condition
+    (-c < x < c) instead of first forking on the sign of x.  Any other use forces the sign fork."""
+
+    __slots__ = ("inner", "_forced")
+
+    def __init__(self, inner: Sym):
+        self.inner = inner
+        self._forced = None
+        self._z3 = None
+
+    def _force(self) -> Sym:
+        if self._forced is None:
+            x = self.inner
+            self._forced = x if ENGINE.decide(x.z3() >= 0, tainted=x.tainted) else -x
+        return self._forced
+
+    @property
+    def num(self):  # type: ignore
+        return self._force().num
+
+    @property
+    def den(self):  # type: ignore
+        return self._force().den
+
+    def _cmp(self, o, op: str):
+        b = Sym.lift(o)
+        if b is None:
+            return NotImplemented
+        if self._forced is None and b.is_const():
+            c = b.const_value()
+            x = self.inner
+            if 0 < c < TINY:
+                # A-tiny: |x| < tiny  <=>  x == 0
+                ENGINE.assumptions_used.add("A-tiny: symbolic values are 0 or at least 1e-20 in magnitude")
+                if op in ("eq", "ne"):
+                    return numpy.bool_(op == "ne")
+                zero = ENGINE.decide(x.truth().z3() if x.truth().t is not None else z3.BoolVal(x.truth().c), tainted=x.tainted) is False
+                return numpy.bool_(zero if op in ("lt", "le") else not zero)
+            if c < 0:
+                return numpy.bool_(op in ("gt", "ge", "ne"))
+            xz = x.z3()
+            cz = z3.RealVal(str(c)) if not ENGINE.int_atoms or c.denominator != 1 else z3.IntVal(int(c))
+            t = {
+                "lt": z3.And(xz < cz, xz > -cz),
+                "le": z3.And(xz <= cz, xz >= -cz),
+                "gt": z3.Or(xz > cz, xz < -cz),
+                "ge": z3.Or(xz >= cz, xz <= -cz),
+                "eq": z3.Or(xz == cz, xz == -cz),
+                "ne": z3.And(xz != cz, xz != -cz),
+            }[op]
+            return numpy.bool_(ENGINE.decide(t, tainted=x.tainted))
+        return Sym._cmp(self._force(), o, op)
+
+    def is_const(self) -> bool:
+        return False if self._forced is None else self._forced.is_const()
+
+    def atoms(self):
+        return self.inner.atoms()
+
+    def truth(self):
+        return self.inner.truth()
+
+    def __bool__(self):
+        return bool(self.inner)
+
+    def __abs__(self):
+        return self
+
+    def z3(self):
+        return self._force().z3()
+
+    def pretty(self) -> str:
+        return "|%s|" % self.inner.pretty()
+
+    def __reduce__(self):
+        f = self._force()
+        return (_sym_rebuild, (f.num, f.den))
 
 
 def _sym_rebuild(num, den):
@@ -611,7 +699,8 @@ class Engine:
         self.havoc_counter = 0
         self.atom_counter = 0
         self.path_cache: Dict[Any, Any] = {}
-        self.decided: Dict[int, bool] = {}
+        self.assumptions_used = set()
+        self.decided: Dict[str, bool] = {}
         self._keep: List[Any] = []
 
     def reset_stats(self):
@@ -691,15 +780,19 @@ class Engine:
     def decide(self, t, tainted: bool = False) -> bool:
         if not self.active:
             raise RuntimeError("symbolic branch outside Engine.explore: %s" % t)
-        t = z3.simplify(t)
-        if z3.is_true(t):
-            return True
-        if z3.is_false(t):
-            return False
-        tid = t.get_id()
+        # cache key = the term as constructed (deterministic across re-executions; z3.simplify orders
+        # arguments by AST id, which is not)
+        tid = t.sexpr()
         hit = self.decided.get(tid)
         if hit is not None:
             return hit
+        t = z3.simplify(t)
+        if z3.is_true(t):
+            self.decided[tid] = True
+            return True
+        if z3.is_false(t):
+            self.decided[tid] = False
+            return False
         if tainted:
             self.event("havoc-branch", str(t)[:200])
         if self.deadline is not None and time.time() > self.deadline:
